@@ -209,3 +209,26 @@ Theorem C07_idevice_any_real_exponent_partial : forall n b cb a bp c p,
      ((exists k, pnth bp i = Rnat k) /\ 0 <= pnth a i \/ 1 <= pnth bp i /\ 0 < pnth a i) /\ 0 <= pnth c i /\ lo b i <= hi b i) ->
   convex_on (in_box_R b) (fun s => leaf_cost (Build_leafdev n b cb (KI a bp c)) s p).
 Proof. exact convex_idevice_real. Qed.
+
+(* ==== the "consequently" clause: convexity of the documented feasible set (which C03 proves to be the exported one) ==============
+   Affine constraints - per-slot bounds, cumulative bounds, user constraints, lossless storage with or without rate clipping - give a
+   convex feasible set, so a local optimum of a convex cost is global there.  A LOSSY two-way storage does not: its state of charge
+   is concave in the flow (C07_state_of_charge_concave) and "state of charge <= capacity" is then not a convex condition; refuted by
+   an exact witness (open finding sdevice-lossy-feasible-set-nonconvex). Proofs/FeasConvex.v ==== *)
+From DK.Model Require Import FeasSpec.
+From DK.Proofs Require Import FeasConvex.
+Theorem C07_feasible_set_convex_when_constraints_affine : forall (d : leafdev R) n,
+  (match ld_kind d with KS q => sp_eff q = 1 /\ 0 < sp_capacity q | _ => True end) ->
+  forall x y l, List.length x = n -> List.length y = n -> leaf_feasible_spec d x -> leaf_feasible_spec d y -> 0 <= l <= 1 ->
+    leaf_feasible_spec d (vlerp l x y).
+Proof. exact leaf_feasible_set_convex. Qed.
+Theorem C07_local_optimum_global_on_the_feasible_set : forall n (B : list R -> Prop) (F : list R -> R),
+  convex_set n B -> convex_on (fun x => List.length x = n /\ B x) F ->
+  forall x y, List.length x = n -> List.length y = n -> B x -> B y -> F y < F x ->
+  forall l, 0 <= l < 1 -> B (vlerp l x y) /\ F (vlerp l x y) < F x.
+Proof. exact local_optimum_global_on_feasible_set. Qed.
+Theorem C07_lossy_storage_feasible_set_refuted :
+  leaf_accepted lossy_dev /\
+  leaf_feasible_spec lossy_dev [2; 0] /\ leaf_feasible_spec lossy_dev [-1; 6] /\
+  ~ leaf_feasible_spec lossy_dev (vlerp (1 / 2) [2; 0] [-1; 6]).
+Proof. exact lossy_storage_feasible_set_not_convex. Qed.
